@@ -75,6 +75,9 @@ func newDisjunctionSearcher(ctx context.Context, indexReader index.IndexReader,
 				for _, s := range qsearchers {
 					_ = s.Close()
 				}
+				if ts, ok := rv.(*TermSearcher); ok {
+					ts.min = int(min)
+				}
 				return rv, nil
 			}
 		}
